@@ -89,17 +89,43 @@ type party struct {
 	jitter bool
 
 	mu     sync.Mutex
+	accts  [][]byte                       // marshalled addresses the wallet can unlock
 	called map[client.ProposalID]int      // recording ProposalHandler: invocations per proposal ID
 	plans  map[client.ProposalID]*acceptPlan // proposals to accept (positive runs)
 	done   chan doneEvt                     // VerifHandle completion events (party under test only)
 }
 
+// detReader makes ecdsa.GenerateKey deterministic: its randutil.MaybeReadByte reads a single byte
+// with probability 1/2, which must not shift the stream the key is derived from.
+type detReader struct{ r *rand.Rand }
+
+func (d detReader) Read(b []byte) (int, error) {
+	if len(b) == 1 {
+		b[0] = 0
+		return 1, nil
+	}
+	return d.r.Read(b)
+}
+
 func (p *party) newAccount() *simwallet.Account {
-	acc := simwallet.NewRandomAccount(rand.New(rand.NewSource(p.rng.Int63())))
+	acc := simwallet.NewRandomAccount(detReader{rand.New(rand.NewSource(p.rng.Int63()))})
 	if err := p.wal.AddAccount(acc); err != nil {
 		panic(err)
 	}
+	b, err := acc.Address().MarshalBinary()
+	if err != nil {
+		panic(err)
+	}
+	p.mu.Lock()
+	p.accts = append(p.accts, b)
+	p.mu.Unlock()
 	return acc
+}
+
+func (p *party) accounts() [][]byte {
+	p.mu.Lock()
+	defer p.mu.Unlock()
+	return append([][]byte{}, p.accts...)
 }
 
 func (p *party) waddr(a *simwallet.Account) map[wallet.BackendID]wallet.Address {
